@@ -242,9 +242,9 @@ theorem assertKeyHasValue_ok (root : Pairs) (key caller : String) (add : Val)
   split at h
   · cases h
   · cases h
-  · rename_i v hv hne
+  · rename_i v hne hv
     cases h
-    exact ⟨hv, fun e => hne (by rw [e] at hv; exact hv)⟩
+    exact ⟨hv, hne⟩
 
 theorem runStep_ok (useDefaults : Bool) (fuel : Nat) (root root' : Pairs)
     (h : runStep useDefaults fuel root = .ok root') :
